@@ -32,6 +32,7 @@ import functools
 import hashlib
 import itertools
 import math
+import signal
 import warnings
 
 import numpy as np
@@ -175,9 +176,28 @@ def cfg_of(case):
 
 
 # =========================================================================== calling the library
+def call_budget(case):
+    """Watchdog budget (s) of one library call: the framework default, raised for the known-expensive
+    configurations to ~120x their measured single-thread cost so that a heavily shared machine does not turn
+    a slow call into a 'terminates' verdict (the code under test has no data-dependent loops)."""
+    try:
+        unit = UNIT[(case["nsrc"], case["nchan"])] * case["nsrc"]
+    except (KeyError, TypeError):
+        return core.CALL_BUDGET_S
+    nwin = 1
+    if case.get("kind") in ("framewise", "evaluate") and case.get("window"):
+        nwin = max(1, len(bss.window_starts(case["L"], case["window"], case["hop"])))
+    elif case.get("kind") == "evaluate":
+        nwin = 8
+    return max(core.CALL_BUDGET_S, 120.0 * unit * nwin)
+
+
 def lib_call(acc, case, fn, *args, **kwargs):
     """One execution of real mir_eval code.  Returns (True, result) or (False, 'raised X: msg')."""
     acc.tick(case)
+    budget = call_budget(case)
+    if budget > core.CALL_BUDGET_S:
+        signal.setitimer(signal.ITIMER_REAL, budget)
     acc.transitions += 1
     with warnings.catch_warnings():
         warnings.simplefilter("ignore")
@@ -965,7 +985,7 @@ def framewise_alphabet(tier, phase):
     groups = []
     for api, nsrc, nchan, depth in combos:
         W = nsrc * 1024                                   # every window is itself a valid input (>= 2*nsrc*512)
-        lengths = (3 * W, 3 * W + 100) if depth == "all" else (3 * W,)
+        lengths = (3 * W, 3 * W + 100) if depth == "all" else (3 * W,) if depth == "ends" else (2 * W,)
         M = [[1.0 if i == j else 0.5 for j in range(nsrc)] for i in range(nsrc)]
         if nsrc == 2:
             M = [[0.5, 1.0], [1.0, 0.1]]                  # off-diagonal dominant: permutation is not the identity
@@ -1076,7 +1096,9 @@ def run(run):
         for b in lpt(cfgs, costs, nb):
             shards.append((b, pl))
     shards.sort(key=lambda s: -sum(config_cost(c, s[1]) for c in s[0]))
-    run.explore("configs+edges", mod, "shard_configs", shards)
+    run.explore("configs+edges", mod, "shard_configs", shards,
+                note="complete over the stated finite configuration alphabet and edge set; the underlying signal "
+                     "space is a continuum (exploration level)")
     # (2) perfect estimates
     pf = perfect_alphabet(tier, phase)
     costs = [UNIT[(c["nsrc"], c["nchan"])] * (c["nsrc"] if c["cp"] else 1) for c in pf]
